@@ -389,11 +389,20 @@ def corr_selector(hbin, wd, tier, seed, sizes=((16, 8), (32, 40))):
     return info, bad
 
 
+LB_MODEL_TEXT = ("Lookback.query_lookback / remote_lookback (engine default, query options, pushed-down parts) vs the range start the "
+                 "instrumented storages are asked for by the real engine and by a distributed engine whose remote engines have a "
+                 "lookback configuration of their own")
+
+
+def corr_lookback(prop):
+    return _corr_generic("lbcases", prop, LB_MODEL_TEXT, 50, 400, shards_quick=4, shards_thorough=8)
+
+
 def check_C02(tier, seed, replay=None):
     # the hints oracle (a storage that returns only what each Select asked for) on selector pairs:
     # a selector must ask for its own range even when the same matchers occur twice in a query
     return ref_family_check("C02", tier, seed, [("ref", "selector", 3000), ("ref", "selpair", 1500), ("hints", "selpair", 800), ("hints", "subpairs", 500), ("dist", "selector", 800), ("ref", "func", 600)],
-                            [("ref", "selector", 60000), ("ref", "selpair", 30000), ("hints", "selpair", 20000), ("hints", "subpairs", 10000), ("dist", "selector", 15000), ("ref", "func", 10000)], corr=corr_selector)
+                            [("ref", "selector", 60000), ("ref", "selpair", 30000), ("hints", "selpair", 20000), ("hints", "subpairs", 10000), ("dist", "selector", 15000), ("ref", "func", 10000)], corr=_corr_multi(corr_selector, corr_lookback("C02")))
 
 
 def corr_range(hbin, wd, tier, seed):
@@ -536,7 +545,7 @@ def check_C10(tier, seed, replay=None):
                        "Trees.jrun on the plan of the real DistributedExecutionOptimizer (JRemote: the subquery run on the engine's own "
                        "partition and read back with lookback 0, Remote.v; JConcat: coalesce) vs the result of the real distributed engine "
                        "over 2 or 3 local engines on a random partition of the series (whole nested queries as in treecases)",
-                       30, 300, shards_quick=8, shards_thorough=16))
+                       30, 300, shards_quick=8, shards_thorough=16), corr_lookback("C10"))
     return ref_family_check("C10", tier, seed, [("dist", "", 1500), ("dist", "agg", 1200), ("dist", "range", 500), ("dist", "fb", 800)],
                             [("dist", "", 30000), ("dist", "agg", 30000), ("dist", "range", 10000), ("dist", "noties", 10000), ("dist", "fb", 15000)], corr=corr)
 
